@@ -15,15 +15,17 @@ The property as stated (properties.jsonl):
 This statement is FALSE of the code as it is (and of this model of it).  The file therefore holds
   * the counter-example theorems, each an explicit schedule of the model
     (`close_before_running_leaks`, `close_before_service_start_leaks`, `close_signal_dropped`,
-    `close_signal_dropped_after_restart`, `worker_panic_escapes`, `service_goroutine_panic_never_resumes`,
-    `close_during_cooldown_restarts`) with what is permanent about each,
+    `close_signal_dropped_after_restart`, `close_during_cooldown_restarts`) with what is permanent about each,
   * the part that is true, for every schedule of any length: `close_stops_all_partial`
     (hypothesis: start-up has quiesced — `settled`: serviceStart parked in its select with the running flag
     set and the wrapped service in its loop; then Close, called at ANY later point — mid-tick, during a
     cool-down, racing a panic — returns, and when the system comes to rest nothing is left, provided the
     cancel signal was not dropped, which can only happen after a panic of the service's own goroutine),
     `close_never_blocks` (from a fresh recoverer, any timing, any number of Close calls), `system_steps_terminate`,
-    `process_panic_contained` (the fixed ticker) / `process_panic_escapes_old` (before the fix).
+    and containment of panics where they are raised: `process_panic_contained`, `worker_panic_contained`,
+    `events_panic_contained` for the current tree, with `process_panic_escapes_old`, `worker_panic_escapes_old`,
+    `service_goroutine_panic_never_resumes_old` for the tree before the respective fix (and, the last one, for any
+    start-once service whose own goroutine panics).
 PARTIAL by nature: goroutine identity, real panics, process survival and the scheduler are runtime facts;
 the model carries the bookkeeping (program counters, the capacity-1 channel with Go's hand-off rule, the
 StateMachine, the cool-down timer).  Fairness is an assumption: `system_steps_terminate` bounds the number of
@@ -89,7 +91,7 @@ theorem close_before_running_leaks :
     service keeps ticking. -/
 theorem close_before_running_leak_permanent :
     (∀ sched c, Sched sysLabels sched → runC leakA sched = some c → c = leakA) ∧
-    (step true { core := leakA, procs := 0, workers := 0, crashed := false } .tick).isSome = true :=
+    (step current { core := leakA, procs := 0, workers := 0, crashed := false } .tick).isSome = true :=
   ⟨terminal_stuck (by decide), by decide⟩
 
 /-- a second Close, issued after start-up has quiesced, does stop the services leaked by (a)
@@ -236,69 +238,105 @@ theorem close_during_cooldown_restarts :
     -- fair completion: clean
     (runC init schedCloseDuringCoolDown).map (fun c => (c.clean, c.cres, terminal c)) = some (true, .ok, true) := by decide
 
-/-! ### panics -/
+/-! ### panics
 
-/-- the fixed ticker: a panic inside a `go Process` goroutine is a step of the system that does not terminate
-    it, leaves the recoverer / service state untouched and the ticker ticking -/
-theorem process_panic_contained (s : State) (hc : s.crashed = false) (hp : 0 < s.procs) :
-    ∃ s', step true s .pPanic = some s' ∧ s'.crashed = false ∧ s'.core = s.core ∧ s'.procs = s.procs - 1 ∧
-      (step true s' .tick).isSome = (step true s .tick).isSome := by
+`current` = the tree as it is (all three containment fixes); the `…_old` theorems are about the tree before the
+respective fix (`Fixes` with that flag off) and are what the harness observes when a fix is reverted. -/
+
+/-- a panic inside a `go Process` goroutine (provider `Value`, pre- or post-processor) is a step of the system that
+    does not terminate it, leaves the recoverer / service state untouched and the ticker ticking -/
+theorem process_panic_contained (fx : Fixes) (hf : fx.ticker = true) (s : State) (hc : s.crashed = false) (hp : 0 < s.procs) :
+    ∃ s', step fx s .pPanic = some s' ∧ s'.crashed = false ∧ s'.core = s.core ∧ s'.procs = s.procs - 1 ∧
+      (step fx s' .tick).isSome = (step fx s .tick).isSome := by
   refine ⟨{ s with procs := s.procs - 1 }, ?_, hc, rfl, rfl, ?_⟩
-  · simp [step, hc]; omega
+  · simp [step, hc, hf]; omega
   · simp only [step, hc]; split <;> simp
 
-example : (run true settledS [.tick, .pPanic, .tick, .pFinish]).map (fun s => (s.crashed, s.core.nRun, s.procs)) = some (false, 1, 0) := by decide
+example : (run current settledS [.tick, .pPanic, .tick, .pFinish]).map (fun s => (s.crashed, s.core.nRun, s.procs)) = some (false, 1, 0) := by decide
 
 /-- before "fix: time ticker: contain a panic raised while processing a tick": the same panic terminates the
     process — afterwards no step of anything is possible -/
-theorem process_panic_escapes_old (s : State) (hc : s.crashed = false) (hp : 0 < s.procs) :
-    ∃ s', step false s .pPanic = some s' ∧ s'.crashed = true ∧ ∀ fixed l, step fixed s' l = none := by
+theorem process_panic_escapes_old (fx : Fixes) (hf : fx.ticker = false) (s : State) (hc : s.crashed = false) (hp : 0 < s.procs) :
+    ∃ s', step fx s .pPanic = some s' ∧ s'.crashed = true ∧ ∀ f l, step f s' l = none := by
   refine ⟨{ s with crashed := true }, ?_, rfl, ?_⟩
-  · simp [step, hc]; omega
-  · intro fixed l; cases l <;> simp [step]
-
-example : (run false settledS [.tick, .pPanic]).map (·.crashed) = some true := by decide
-
-/-- NEW FINDING (model of pkg/util/worker.go `doJob`): a panic inside the check pipeline is raised in a
-    worker-group goroutine, which has no `recover` — it terminates the process with the fixed ticker too. -/
-theorem worker_panic_escapes (fixed : Bool) (s : State) (hc : s.crashed = false) (hw : 0 < s.workers) :
-    ∃ s', step fixed s .wPanic = some s' ∧ s'.crashed = true ∧ ∀ f l, step f s' l = none := by
-  refine ⟨{ s with crashed := true }, ?_, rfl, ?_⟩
-  · simp [step, hc]; omega
+  · simp [step, hc, hf]; omega
   · intro f l; cases l <;> simp [step]
 
-example : (run true settledS [.tick, .pJob, .wPanic]).map (·.crashed) = some true := by decide
+example : (run { current with ticker := false } settledS [.tick, .pPanic]).map (·.crashed) = some true := by decide
 
-/-- NEW FINDING (coordinator: the event provider is called by the service's own goroutine): after a panic of
-    the service goroutine the recoverer waits the cool-down and restarts it, but a start-once service refuses
-    the second `Start` ("has already been started once") — for every schedule, once it has panicked the
-    service loop never runs again, while the recoverer keeps reporting itself as running until Close. -/
-theorem service_goroutine_panic_never_resumes :
+/-- a panic inside the check pipeline is raised on a worker-group goroutine; `runWorkItem` turns it into an error
+    result: the process survives, the recoverer / service state is untouched, the worker is gone, the flow that
+    submitted the job carries on (it can finish, and the ticker can tick again) -/
+theorem worker_panic_contained (fx : Fixes) (hf : fx.worker = true) (s : State) (hc : s.crashed = false) (hw : 0 < s.workers) :
+    ∃ s', step fx s .wPanic = some s' ∧ s'.crashed = false ∧ s'.core = s.core ∧ s'.procs = s.procs ∧ s'.workers = s.workers - 1 ∧
+      (step fx s' .tick).isSome = (step fx s .tick).isSome ∧ (step fx s' .pFinish).isSome = (step fx s .pFinish).isSome := by
+  refine ⟨{ s with workers := s.workers - 1 }, ?_, hc, rfl, rfl, rfl, ?_, ?_⟩
+  · simp [step, hc, hf]; omega
+  · simp only [step, hc]; split <;> simp
+  · simp only [step, hc]; split <;> simp
+
+example : (run current settledS [.tick, .pJob, .wPanic, .pFinish, .tick]).map (fun s => (s.crashed, s.core.nRun, s.procs, s.workers)) =
+    some (false, 1, 1, 0) := by decide
+
+/-- before "fix: worker group: a panicking work item becomes an error result…": no recover on the worker goroutine —
+    the panic terminates the process whatever the ticker does -/
+theorem worker_panic_escapes_old (fx : Fixes) (hf : fx.worker = false) (s : State) (hc : s.crashed = false) (hw : 0 < s.workers) :
+    ∃ s', step fx s .wPanic = some s' ∧ s'.crashed = true ∧ ∀ f l, step f s' l = none := by
+  refine ⟨{ s with crashed := true }, ?_, rfl, ?_⟩
+  · simp [step, hc, hf]; omega
+  · intro f l; cases l <;> simp [step]
+
+example : (run { current with worker := false } settledS [.tick, .pJob, .wPanic]).map (·.crashed) = some true := by decide
+
+/-- a panic inside the poll the coordinator's own goroutine performs (the transmit-event provider) is turned into an
+    error by `safeCheckEvents`: nothing changes — the process survives, the service loop is still running, the
+    recoverer is not involved (no cool-down), the next poll can take place and can panic again -/
+theorem events_panic_contained (fx : Fixes) (hf : fx.poll = true) (s : State) (hc : s.crashed = false) (hr : 0 < s.core.nRun) :
+    step fx s .pollPanic = some s ∧ (step fx s .pollPanic).map (fun s' => (s'.core.nRun, s'.core.panicked)) = some (s.core.nRun, s.core.panicked) := by
+  have : s.core.nRun ≠ 0 := by omega
+  simp [step, hc, hf, this]
+
+example : (run current settledS [.pollPanic, .pollPanic, .tick]).map (fun s => (s.crashed, s.core.nRun, s.core.spc, s.core.panicked)) =
+    some (false, 1, .parked, false) := by decide
+
+/-- before "fix: coordinator: a panic while polling transmit events…" the poll's panic is a panic of the service's
+    own goroutine (`gPanic`) — and for ANY start-once service whose own goroutine panics the following holds (it is
+    the code as it is for such a panic; no flow of the current tree raises one from a fake): the recoverer waits the
+    cool-down and restarts it, but the StateMachine refuses the second `Start` ("has already been started once") —
+    for every schedule, once it has panicked the service loop never runs again, while the recoverer keeps reporting
+    itself as running until Close. -/
+theorem service_goroutine_panic_never_resumes_old :
+    (∀ fx s, fx.poll = false → step fx s .pollPanic =
+        if s.crashed ∨ s.core.nRun = 0 then none else (stepCore s.core .gPanic).map fun c => { s with core := c }) ∧
     (∀ sched c, Sched oneClose sched → runC settled sched = some c → c.panicked = true → c.nRun = 0 ∧ c.nStarting = 0) ∧
     (runC init schedServicePanic).map (fun c => (c.spc, c.running, c.nRun, c.gs, c.svc, terminal c)) =
       some (.parked, true, 0, 0, .started, true) := by
-  refine ⟨?_, by decide⟩
-  intro sched c hs hr hp
-  have h := KS_all hs hr
-  simp only [PS, Bool.and_eq_true, Bool.or_eq_true, Bool.not_eq_true', decide_eq_true_eq] at h
-  rcases h.2 with h | h
-  · simp [hp] at h
-  · exact h
+  refine ⟨?_, ?_, by decide⟩
+  · intro fx s hf; simp [step, hf]
+  · intro sched c hs hr hp
+    have h := KS_all hs hr
+    simp only [PS, Bool.and_eq_true, Bool.or_eq_true, Bool.not_eq_true', decide_eq_true_eq] at h
+    rcases h.2 with h | h
+    · simp [hp] at h
+    · exact h
+
+example : (run { current with poll := false } settledS (faultSched { current with poll := false } "eventsProvider")).map
+    (fun s => (s.crashed, s.core.nRun, s.core.running)) = some (false, 0, true) := by decide
 
 /-! ### the full system projects onto the core -/
 
 /-- ticks, Process and worker goroutines never touch the recoverer/service protocol: every run of the full
     system is, on the core, a run of the core model — so the theorems above hold with any number of ticks and
-    (fixed ticker) Process panics interleaved. -/
-theorem run_projects_to_core (fixed : Bool) :
-    ∀ (sched : List Label) (s s' : State), run fixed s sched = some s' → ∃ cs, runC s.core cs = some s'.core := by
+    contained panics interleaved (an uncontained poll panic is the core step `gPanic`). -/
+theorem run_projects_to_core (fx : Fixes) :
+    ∀ (sched : List Label) (s s' : State), run fx s sched = some s' → ∃ cs, runC s.core cs = some s'.core := by
   intro sched
   induction sched with
   | nil => intro s s' h; simp [run] at h; exact ⟨[], by simp [runC, h]⟩
   | cons l ls ih =>
     intro s s' h
     simp only [run] at h
-    cases hstep : step fixed s l with
+    cases hstep : step fx s l with
     | none => simp [hstep] at h
     | some s1 =>
       simp only [hstep] at h
@@ -315,16 +353,29 @@ theorem run_projects_to_core (fixed : Bool) :
             refine ⟨cl :: cs, ?_⟩
             simp only [runC, hc]
             rw [← hstep] at hcs; exact hcs
-      | tick | pJob | pFinish | wFinish | wPanic =>
+      | tick | pJob | pFinish | wFinish =>
         simp only [step] at hstep
         split at hstep
         · simp at hstep
         · simp at hstep; rw [← hstep] at hcs; exact ⟨cs, hcs⟩
-      | pPanic =>
+      | pPanic | wPanic =>
         simp only [step] at hstep
         split at hstep
         · simp at hstep
         · split at hstep <;> (simp at hstep; rw [← hstep] at hcs; exact ⟨cs, hcs⟩)
+      | pollPanic =>
+        simp only [step] at hstep
+        split at hstep
+        · simp at hstep
+        · split at hstep
+          · simp at hstep; rw [← hstep] at hcs; exact ⟨cs, hcs⟩
+          · cases hc : stepCore s.core .gPanic with
+            | none => simp [hc] at hstep
+            | some c1 =>
+              simp [hc] at hstep
+              refine ⟨.gPanic :: cs, ?_⟩
+              simp only [runC, hc]
+              rw [← hstep] at hcs; exact hcs
 
 /-! ### the Spec predicate on the model's predictions -/
 
@@ -332,61 +383,129 @@ private theorem pc_a : predictClose .notRunning = some ⟨1, 1⟩ := by decide
 private theorem pc_b : predictClose .svcRefused = some ⟨0, 1⟩ := by decide
 private theorem pc_ok : predictClose .ok = some ⟨0, 0⟩ := by decide
 
+/-- the oracle's predicate and its explanation agree: `spec` holds exactly when no conjunct is reported -/
+theorem spec_iff_ok (cs : Case) (o : Obs) : spec cs o = true ↔ classify cs o = .ok := by
+  simp only [spec, classify, panicOk]
+  repeat' split
+  all_goals (try (simp_all; done))
+  all_goals (try (simp_all; omega))
+  all_goals (try (simp_all; (repeat' split) <;> simp))
+  all_goals (cases h1 : o.closeCalled <;> cases h2 : panicClauseApplies cs o <;> simp_all)
+
+/-- KNOWN FINDING (a) is reported for nothing else: the verdict `closeBeforeRunning` (the only one rendered with the
+    prefix `close-before-running:`) is given exactly when the process survived, Close returned, something is left,
+    and what is left is precisely the footprint of schedule (a) with nothing else wrong (`isCloseBeforeRunning`) -/
+theorem known_finding_a_exclusive (cs : Case) (o : Obs) :
+    classify cs o = .closeBeforeRunning ↔
+      (o.survived = true ∧ (o.closeCalled = true → o.closeReturned = true) ∧ o.leak = true ∧ isCloseBeforeRunning cs o = true) := by
+  simp only [classify]
+  repeat' split
+  all_goals simp_all
+
+/-- KNOWN FINDING (b) likewise -/
+theorem known_finding_b_exclusive (cs : Case) (o : Obs) :
+    classify cs o = .closeBeforeServiceStart ↔
+      (o.survived = true ∧ (o.closeCalled = true → o.closeReturned = true) ∧ o.leak = true ∧
+       isCloseBeforeRunning cs o = false ∧ isCloseBeforeServiceStart cs o = true) := by
+  simp only [classify]
+  repeat' split
+  all_goals simp_all
+
+/-- the model's prediction for a Close without any panic, written out -/
+private def quietObs (cs : Case) (n k : Nat) : Obs :=
+  { survived := true, closeCalled := true, closeReturned := true, errNotRunning := n, errNotStarted := k, errOther := 0,
+    leakedServiceStart := n, leakedService := n + k, leakedAux := 0, leakedInflight := 0, ticking := decide (n + k > 0),
+    bubbleEnded := decide (k = 0), after2ndServiceStart := 0, after2ndService := k,
+    panicsInjected := 0, resumed := true, resumedWithinNs := cs.intervalNs, othersTicked := true }
+
+private theorem predict_nopanic (fx : Fixes) (cs : Case) (n k : Nat) : predict fx cs n k true 0 = quietObs cs n k := by
+  simp [predict, quietObs, pc_a, pc_b, pc_ok, settledS, settled, init]
+
 /-- the oracle accepts the model's prediction for a plugin all of whose recoverers were settled when Close was called -/
-theorem spec_model_clean_close (cs : Case) : spec cs (predict cs 0 0 true 0) = true := by
-  simp [spec, predict, pc_a, pc_b, pc_ok, Obs.leak, panicClauseApplies, settledS]
+theorem spec_model_clean_close (fx : Fixes) (cs : Case) : spec cs (predict fx cs 0 0 true 0) = true := by
+  rw [predict_nopanic]; simp [spec, quietObs, panicOk, Obs.leak, panicClauseApplies]
 
 /-- … and on the model's prediction for `n ≥ 1` recoverers closed before they were running (schedule (a)) it fails with
     exactly the known-finding string -/
-theorem spec_reports_close_before_running (cs : Case) (n : Nat) (hn : 0 < n) :
-    spec cs (predict cs n 0 true 0) = false ∧
-    explain cs (predict cs n 0 true 0) = s!"close-before-running: Close returned not-running for {n} services and they kept running" := by
+theorem spec_reports_close_before_running (fx : Fixes) (cs : Case) (n : Nat) (hn : 0 < n) :
+    spec cs (predict fx cs n 0 true 0) = false ∧
+    explain cs (predict fx cs n 0 true 0) = s!"close-before-running: Close returned not-running for {n} services and they kept running" := by
+  have hn' : n ≠ 0 := by omega
+  rw [predict_nopanic]
   constructor
-  · simp [spec, predict, pc_a, pc_b, pc_ok, Obs.leak, panicClauseApplies, settledS]; omega
-  · simp [explain, predict, pc_a, pc_b, pc_ok, Obs.leak, settledS, hn]
+  · simp [spec, quietObs, Obs.leak, hn']
+  · have hc : classify cs (quietObs cs n 0) = .closeBeforeRunning := by
+      simp [classify, quietObs, isCloseBeforeRunning, panicOk, Obs.leak, panicClauseApplies, hn]
+    unfold explain; rw [hc]; rfl
 
-/-- schedule (b) on `k ≥ 1` recoverers: a different, equally stable string -/
-theorem spec_reports_close_before_service_start (cs : Case) (n k : Nat) (hk : 0 < k) :
-    spec cs (predict cs n k true 0) = false ∧
-    explain cs (predict cs n k true 0) = s!"close-before-service-start: Close was refused by {k} services that had not completed their start (not-running for {n} more); they started afterwards and can no longer be closed" := by
+/-- schedule (b) on `k ≥ 1` recoverers (and (a) on `n` more): the other known-finding string -/
+theorem spec_reports_close_before_service_start (fx : Fixes) (cs : Case) (n k : Nat) (hk : 0 < k) :
+    spec cs (predict fx cs n k true 0) = false ∧
+    explain cs (predict fx cs n k true 0) = s!"close-before-service-start: Close was refused by {k} services that had not completed their start (not-running for {n} more); they started afterwards and can no longer be closed" := by
   have hk' : k ≠ 0 := by omega
+  rw [predict_nopanic]
   constructor
-  · simp [spec, predict, pc_a, pc_b, pc_ok, Obs.leak, panicClauseApplies, settledS, hk']
-  · simp [explain, predict, pc_a, pc_b, pc_ok, Obs.leak, settledS, hk, hk']
+  · simp [spec, quietObs, Obs.leak, hk']
+  · have hc : classify cs (quietObs cs n k) = .closeBeforeServiceStart := by
+      simp [classify, quietObs, isCloseBeforeRunning, isCloseBeforeServiceStart, panicOk, Obs.leak, panicClauseApplies, hk, hk']
+    unfold explain; rw [hc]; rfl
 
-private theorem run_pipeline : run true settledS (faultSched "pipeline") = some { settledS with procs := 1, workers := 1, crashed := true } := by decide
-private theorem run_events : (run true settledS (faultSched "eventsProvider")).map (fun s => (s.crashed, s.core.nRun)) = some (false, 0) := by decide
-private theorem run_log : (run true settledS (faultSched "logProvider")).map (fun s => (s.crashed, s.core.nRun)) = some (false, 1) := by decide
+private theorem run_site (fx : Fixes) (site : String) (c : Bool) (n : Nat)
+    (h : (run fx settledS (faultSched fx site)).map (fun s => (s.crashed, s.core.nRun)) = some (c, n)) :
+    ∃ s, run fx settledS (faultSched fx site) = some s ∧ s.crashed = c ∧ s.core.nRun = n := by
+  cases hrun : run fx settledS (faultSched fx site) with
+  | none => simp [hrun] at h
+  | some s => simp [hrun] at h; exact ⟨s, rfl, h.1, h.2⟩
 
-/-- a panic in the check pipeline: the model predicts the process dies; the oracle says so -/
-theorem spec_reports_worker_panic (cs : Case) (h : cs.panicSite = "pipeline") (a b : Nat) (c : Bool) :
-    (predict cs a b c 1).survived = false ∧
-    explain cs (predict cs a b c 1) = s!"panic-escaped: a panic injected in {cs.panicSite} terminated the process" := by
-  simp [explain, predict, h, run_pipeline]
+/-- the model's prediction after one injected panic in scenario "panic", plugin settled, Close at the end -/
+private def panicObs (cs : Case) (crashed : Bool) (nRun : Nat) : Obs :=
+  { survived := !crashed, closeCalled := !crashed, closeReturned := !crashed, errNotRunning := 0, errNotStarted := 0, errOther := 0,
+    leakedServiceStart := 0, leakedService := 0, leakedAux := 0, leakedInflight := 0, ticking := false,
+    bubbleEnded := !crashed, after2ndServiceStart := 0, after2ndService := 0, panicsInjected := 1, resumed := decide (nRun > 0),
+    resumedWithinNs := if nRun > 0 then cs.intervalNs else 0, othersTicked := true }
 
-/-- a panic in the coordinator's event provider: the model predicts the flow never resumes; the oracle says so -/
-theorem spec_reports_service_panic_not_resumed (cs : Case) (h : cs.panicSite = "eventsProvider") (hs : cs.scenario = "panic") :
-    spec cs (predict cs 0 0 true 1) = false ∧
-    explain cs (predict cs 0 0 true 1) = s!"panic-not-resumed: the flow calling {cs.panicSite} did not resume within the cool-down plus one tick after the panic" := by
-  have hr := run_events
-  cases hrun : run true settledS (faultSched "eventsProvider") with
-  | none => simp [hrun] at hr
-  | some s =>
-    simp [hrun] at hr
-    constructor
-    · simp [spec, predict, h, hs, hrun, hr, pc_a, pc_b, pc_ok, Obs.leak, panicClauseApplies]
-    · simp [explain, predict, h, hs, hrun, hr, pc_a, pc_b, pc_ok, Obs.leak, panicClauseApplies]
+private theorem predict_panic (fx : Fixes) (cs : Case) (s : State)
+    (hrun : run fx settledS (faultSched fx cs.panicSite) = some s) :
+    predict fx cs 0 0 true 1 = panicObs cs s.crashed s.core.nRun := by
+  simp [predict, panicObs, hrun, pc_a, pc_b, pc_ok]
 
-/-- a panic in a provider called from a `Process` goroutine: contained, the flow resumes with the next tick -/
-theorem spec_model_process_panic_contained (cs : Case) (h : cs.panicSite = "logProvider") (hs : cs.scenario = "panic") :
-    spec cs (predict cs 0 0 true 1) = true := by
-  have hr := run_log
-  cases hrun : run true settledS (faultSched "logProvider") with
-  | none => simp [hrun] at hr
-  | some s =>
-    simp [hrun] at hr
-    simp [spec, predict, h, hs, hrun, hr, pc_a, pc_b, pc_ok, Obs.leak, panicClauseApplies, resumeBound]
-    omega
+/-- on the current tree the model predicts, for a panic at ANY of the six sites, that the process survives and the
+    flow resumes with its next tick / poll — and the oracle accepts that prediction -/
+theorem spec_model_panic_contained (cs : Case) (hs : cs.scenario = "panic")
+    (h : cs.panicSite = "logProvider" ∨ cs.panicSite = "recoveryProvider" ∨ cs.panicSite = "upkeepGetter" ∨
+         cs.panicSite = "stateUpdater" ∨ cs.panicSite = "pipeline" ∨ cs.panicSite = "eventsProvider") :
+    spec cs (predict current cs 0 0 true 1) = true := by
+  have key : ∃ s, run current settledS (faultSched current cs.panicSite) = some s ∧ s.crashed = false ∧ s.core.nRun = 1 := by
+    rcases h with h | h | h | h | h | h <;> rw [h] <;> exact run_site current _ false 1 (by decide)
+  obtain ⟨s, hrun, hc, hn⟩ := key
+  rw [predict_panic current cs s hrun, hc, hn]
+  simp [spec, panicObs, panicOk, Obs.leak, panicClauseApplies, resumeBound, hs]
+  omega
+
+/-- without the worker-group fix the model predicts that a pipeline panic kills the process; the oracle says so -/
+theorem spec_reports_worker_panic_old (cs : Case) (h : cs.panicSite = "pipeline") :
+    spec cs (predict { current with worker := false } cs 0 0 true 1) = false ∧
+    explain cs (predict { current with worker := false } cs 0 0 true 1) = s!"panic-escaped: a panic injected in {cs.panicSite} terminated the process" := by
+  obtain ⟨s, hrun, hc, hn⟩ := run_site { current with worker := false } "pipeline" true 1 (by decide)
+  rw [← h] at hrun
+  rw [predict_panic _ cs s hrun, hc, hn]
+  constructor
+  · simp [spec, panicObs]
+  · have hcl : classify cs (panicObs cs true 1) = .panicEscaped := by simp [classify, panicObs]
+    unfold explain; rw [hcl]; rfl
+
+/-- without the coordinator fix the model predicts that the event flow never resumes; the oracle says so -/
+theorem spec_reports_service_panic_not_resumed_old (cs : Case) (h : cs.panicSite = "eventsProvider") (hs : cs.scenario = "panic") :
+    spec cs (predict { current with poll := false } cs 0 0 true 1) = false ∧
+    explain cs (predict { current with poll := false } cs 0 0 true 1) = s!"panic-not-resumed: the flow calling {cs.panicSite} did not resume within the cool-down plus one tick after the panic" := by
+  obtain ⟨s, hrun, hc, hn⟩ := run_site { current with poll := false } "eventsProvider" false 0 (by decide)
+  rw [← h] at hrun
+  rw [predict_panic _ cs s hrun, hc, hn]
+  constructor
+  · simp [spec, panicObs, panicOk, Obs.leak, panicClauseApplies, hs]
+  · have hcl : classify cs (panicObs cs false 0) = .panicNotResumed := by
+      simp [classify, panicObs, Obs.leak, panicClauseApplies, hs]
+    unfold explain; rw [hcl]; rfl
 
 /-- the cool-down the model's `coolElapsed` stands for is the regenerated constant -/
 theorem cooldown_is_ten_seconds : Gen.panicRestartWaitNs = 10 * 1000000000 := by decide
